@@ -1119,7 +1119,8 @@ class SaveSuite:
 
     def oracle_C17(self, case, obs):
         bad = []
-        name_ok = case["name"].lower().endswith(".gwl")
+        base, dot, ext = case["name"].rpartition(".")
+        name_ok = bool(dot) and base != "" and ext.lower() == "gwl"  # a leading dot starts a hidden file, not an extension
         pre = {None: None, "short": "x", "long": "OLD;" * 5000 + "\r\nTAIL"}[case["pre"]]
         if not name_ok:
             if not obs.get("err"):
